@@ -139,7 +139,11 @@ def run(R, env):
             rt = _rt2(prog, w.T.return_term(), 1, None, w.assumptions)
             alts = rt[1] if rt[0] == "phi" else (rt,)
             counts = set()
+            opt_ret = (pb.j.get("ret_ty") or "").startswith(("std::option::Option", "core::option::Option", "Option"))
             for a in alts:
+                if opt_ret and ((a[0] == "agg" and a[2] == "None") or (a[0] == "call" and a[1] == "std::ops::FromResidual::from_residual")):
+                    counts.add(0)  # an Option-returning poster: None is "no message", not a failure
+                    continue
                 if (a[0] == "agg" and a[2] == "Err") or (a[0] == "call" and a[1] == "std::ops::FromResidual::from_residual"):
                     continue
                 counts.add(len([s_ for s_ in subterms(a) if s_[0] == "agg" and s_[1].endswith("wasm::v1::MsgExecuteContract")]))
